@@ -11,11 +11,12 @@ CONSTANTS MaxRows
 MCHexVal == ("0041" :> 65) @@ ("005A" :> 90) @@ ("10FFFF" :> 1114111) @@ ("0" :> 0)
 
 \* ---- the catalogue ----------------------------------------------------------------------
-GoodCps   == {<<"0041">>, <<"10FFFF">>, <<"0041", "-", "005A">>, <<"0">>}
-BadCps    == {<<>>, <<"110000">>, <<"00G1">>, <<"0041", "-">>, <<"-", "005A">>, <<"0041", "-", "00G1">>, <<"0041", " ">>, <<"0041", "-", "005A", "-", "10FFFF">>}
+GoodCps   == {<<"0041">>, <<"10FFFF">>, <<"0041", "-", "005A">>, <<"0">>, <<"005A", "-", "005A">>}
+BadCps    == {<<>>, <<"110000">>, <<"00G1">>, <<"0041", "-">>, <<"-", "005A">>, <<"0041", "-", "00G1">>, <<"0041", " ">>, <<"0041", "-", "005A", "-", "10FFFF">>,
+              <<"004É">>, <<"€">>, <<"0041", "-", "005Ａ">>}
 GoodProps == {<<"PVALID">>, <<"UNASSIGNED">>, <<"ID_DIS", " or ", "FREE_PVAL">>, <<"CONTEXTJ", " or ", "CONTEXTO">>}
 BadProps  == {<<>>, <<"BOGUS">>, <<"PVALID", " or ", "BOGUS">>, <<"PVALID", " or ">>, <<" or ", "PVALID">>,
-              <<"ID_DIS", " or ", "FREE_PVAL", " or ", "PVALID">>, <<" ", "PVALID">>, <<"PVALID", " ">>, <<"pvalid">>}
+              <<"ID_DIS", " or ", "FREE_PVAL", " or ", "PVALID">>, <<" ", "PVALID">>, <<"PVALID", " ">>, <<"pvalid">>, <<"PVALIĐ">>, <<"ID_DIS", " or ", "FREE_PVAŁ">>}
 Descs     == {<<>>, <<"LATIN CAPITAL LETTER A">>, <<"a", ",", "b">>, <<"x", ",", ",", "y">>, <<"this", " or ", "that">>}
 
 Row(c, p, d) == c \o <<",">> \o p \o <<",">> \o d
